@@ -10,6 +10,15 @@ CHECKS = {
  "C06": ("exploration", "property-based testing (proptest) + bounded-exhaustive enumeration with catch_unwind oracle; libFuzzer+ASan twin in thorough",
          "Searches for byte strings on which decoding or Display unwinds, or whose decoded values differ from the input bytes after the header; same generators as C05 plus random strings to 64 KiB, count/offset arithmetic mutants and undecodable nested values.",
          "Trusted base: catch_unwind sees every panic; safe Rust turns out-of-bounds reads into panics. Stack exhaustion on pathologically deep nesting is probed separately (see DESIGN.md).", "DESIGN.md §3 C06"),
+ "C04": ("exploration", "bounded-exhaustive enumeration + property-based testing (proptest) with an independent sha2 Merkle climb and fresh-tree differential",
+         "Completeness is enumerated exhaustively for every leaf count 1..=255, every position, both profiles; binding negatives and reuse-vs-fresh differentials are enumerated over size grids (all 65,025 ordered pairs and all (n,i) in thorough) and searched with generated leaf sets and histories.",
+         "Trusted base: refcrypto.rs climb (sha2), SHA-512 collision resistance. The node width is inferred from the issued path, so C04 does not judge which width is used (C02 does).", "DESIGN.md §3 C04"),
+ "C13": ("exploration", "property-based testing (proptest), differential against ed25519-dalek one-shot and ring; per-triple exhaustive single-bit corruption",
+         "Generated histories of chunked messages on one signer object are compared with one-shot deterministic Ed25519 from two independent libraries; the verifier is compared with direct verification on honest triples and on every single-bit corruption of signature and key.",
+         "Trusted base: ed25519-dalek one-shot API and ring agree with RFC 8032 (cross-checked per case). Small-order/non-canonical keys are only reached through bit flips of honest keys.", "DESIGN.md §3 C13"),
+ "C14": ("fault_enumeration", "property-based testing (proptest) over blob shapes + exhaustive enumeration of single-bit/byte/truncation/extension tampering and provider faults per blob",
+         "For each generated blob shape every tamper of the stated kinds is enumerated and must yield Err; round trip and leak windows are checked on the untouched blob; provider faults on either call are injected.",
+         "Trusted base: the harness table-KMS authenticates the whole wrapped key, like a real KMS; AES-GCM forgery infeasible. Multi-byte coordinated edits are only sampled (extension/truncation).", "DESIGN.md §3 C14"),
 }
 
 NOT_YET = {}
